@@ -3,14 +3,22 @@
 import json
 CHECKS = {
  "C01": dict(level="model_checking", ref="DESIGN.md §5 C01", thorough=True,
-   text="explicit-state enumeration of every (schema, JSON document) state up to schema weight 4 (quick; 5 thorough) over the core alphabet x the full small JSON universe; every state is judged by the three-valued reference matcher R (RFC 8610 semantics, don't-care where the text is open) and replayed on the real JSONValidator; model traces validated against the implementation = every state",
+   text="explicit-state enumeration of every (schema, JSON document) state up to schema weight 4 over the core alphabet x the small JSON universe (thorough: same weight, larger document universe); every state is judged by the three-valued reference matcher R (RFC 8610 semantics, don't-care where the text is open) and replayed on the real JSONValidator; model traces validated against the implementation = every state",
    note="trusts R (mc/src/refmodel.rs) as the reading of RFC 8610 sections 2-3; nothing is claimed outside the alphabet/weight bound; three recorded defects are attributed by semantic patterns (known_findings.jsonl)",
    tech="bounded-exhaustive explicit-state enumeration + reference model conformance"),
- "C11": dict(level="model_checking", ref="DESIGN.md §5 C11", thorough=True,
-   text="every byte string of length <= 3 (quick; <= 4 thorough, plus structured longer families) is fed to decode_cbor and compared with an independent RFC 8949 reference decoder (well-formedness, value, consumed length); exhaustive within the bound",
+ "C11": dict(level="model_checking", ref="DESIGN.md §5 C11", thorough=False,
+   text="every byte string of length <= 3 (plus structured longer families: every encoding with <= 2 deviations of a CBOR value universe, all prefixes) is fed to decode_cbor and compared with an independent RFC 8949 reference decoder (well-formedness, value, consumed length); exhaustive within the bound",
    note="trusts the harness' reference codec (mc/src/cborref.rs); simple(23)->null is a recorded finding",
    tech="exhaustive byte-string enumeration against a reference decoder"),
 }
+CHECKS["C10"] = dict(level="model_checking", ref="DESIGN.md §5 C10, §9", thorough=True,
+   text="explicit-state relational exploration: every (map schema, map document) state of a dedicated family (1-3 members / two alternatives over a 17-member alphabet x 122 map documents) and as transitions ALL n! permutations of every document map's entries (CBOR value order; JSON text order) and all permutations of key-disjoint schema members (both validators); the successor must show the state's verdict",
+   note="no reference model is trusted (purely relational); the duplicate/equivalent-key sentence of C10 is not covered; one recorded CBOR defect (type-keyed member claims in encoding order) is attributed structurally",
+   tech="exhaustive permutation enumeration, differential oracle")
+CHECKS["C14"] = dict(level="model_checking", ref="DESIGN.md §5 C14, §9", thorough=True,
+   text="every (schema, JSON document) state up to weight 3 (4 thorough) x JSON universe on both validators; from each state the histories repeat / call-after-all-other-calls (reverse sweep) / string entry point are executed and the ordered (location, reason) lists compared; every JSON error location is resolved in the document; a fixed table checks that malformed schema, malformed document and non-conforming document come back as different error kinds",
+   note="sequential histories only: the crate has no static or thread-local mutable state, so concurrent interleavings have nothing to interleave (argued in DESIGN.md 9.4, not explored)",
+   tech="exhaustive state x history enumeration on the real validators")
 NA = {}
 def main():
     props=[json.loads(l)["id"] for l in open("/verif/properties.jsonl")]
